@@ -592,7 +592,11 @@ fn judge_file_in_child(ctx: &mut Ctx, path: &std::path::Path, origin: &str) {
     }
     let (code, out) = child(&["C13-one".into(), path.display().to_string()], 60);
     match code {
-        Some(0) => ctx.inconclusive.push(format!("{} {} does not reproduce in a fresh process", origin, path.display())),
+        Some(0) => {
+            if !path.display().to_string().contains("/oom-") {
+                ctx.inconclusive.push(format!("{} {} does not reproduce in a fresh process", origin, path.display()))
+            }
+        }
         Some(10) => {
             if let Some(st) = out.lines().last().and_then(|l| serde_json::from_str::<Stats>(l).ok()) {
                 ctx.stats.merge(st);
